@@ -127,6 +127,16 @@ func ExtractEncoder(fn *ssa.Function, msgParam string) *CodecTable {
 					t.ZeroCond = append(t.ZeroCond, blockCond(loopHeaderOf(ia.Index)))
 					return
 				}
+				// zero fill of a constant sub-slice: p := b[lo:hi]; for i := range p { p[i] = 0 }
+				if sl, isSl := ia.X.(*ssa.Slice); isSl && sl.Low != nil && sl.High != nil {
+					lo, ok1 := ConstInt(sl.Low)
+					hi, ok2 := ConstInt(sl.High)
+					if ok1 && ok2 && rangesOver(ia.Index, sl) {
+						t.ZeroPad = append(t.ZeroPad, [2]int64{lo, hi})
+						t.ZeroCond = append(t.ZeroCond, blockCond(ia.Block()))
+						return
+					}
+				}
 			}
 			t.Problems = append(t.Problems, fmt.Sprintf("store to buffer at non-constant index at %s", fn.Prog.Fset.Position(st.Pos())))
 			return
@@ -179,6 +189,50 @@ func loopRange(idx ssa.Value) (lo, hi int64, ok bool) {
 		return 0, 0, false
 	}
 	return lo, k, true
+}
+
+// rangesOver: idx is the index of `for idx := range s` (every element of s once):
+// next = phi[-1, next'] + 1 with the continuation test next < len(s) in the phi's block.
+func rangesOver(idx ssa.Value, s ssa.Value) bool {
+	bo, ok := idx.(*ssa.BinOp)
+	if !ok || bo.Op != token.ADD {
+		return false
+	}
+	if k, isK := ConstInt(bo.Y); !isK || k != 1 {
+		return false
+	}
+	ph, ok := bo.X.(*ssa.Phi)
+	if !ok || len(ph.Edges) != 2 {
+		return false
+	}
+	okEdges := 0
+	for _, e := range ph.Edges {
+		if k, isK := ConstInt(e); isK && k == -1 {
+			okEdges++
+		} else if e == ssa.Value(bo) {
+			okEdges++
+		}
+	}
+	if okEdges != 2 {
+		return false
+	}
+	b := bo.Block()
+	iff, isIf := b.Instrs[len(b.Instrs)-1].(*ssa.If)
+	if !isIf {
+		return false
+	}
+	c, pos, isCmp := AsCmp(iff.Cond)
+	if !isCmp || !pos || c.Op != token.LSS || c.X != ssa.Value(bo) {
+		return false
+	}
+	call, isCall := c.Y.(*ssa.Call)
+	if !isCall {
+		return false
+	}
+	if bi, isB := call.Call.Value.(*ssa.Builtin); !isB || bi.Name() != "len" || call.Call.Args[0] != s {
+		return false
+	}
+	return true
 }
 
 func loopHeaderOf(idx ssa.Value) *ssa.BasicBlock {
